@@ -8,10 +8,13 @@ SYMS = ["a", "b", "x", "..."]      # x: expression metavariable
 ELEMS = ["a", "b", "c"]
 
 
+VARS = ("x", "y")
+
+
 def ref_match(pat, lst, binding=None, i=0, j=0, runs=None):
     """reference from the property text: shortest run first, left to right; returns (runs, binding) or None"""
     runs = [] if runs is None else runs
-    binding = binding
+    binding = {} if binding is None else binding
     if i == len(pat):
         return (runs, binding) if j == len(lst) else None
     p = pat[i]
@@ -23,10 +26,10 @@ def ref_match(pat, lst, binding=None, i=0, j=0, runs=None):
         return None
     if j >= len(lst):
         return None
-    if p == "x":
-        if binding is None:
-            return ref_match(pat, lst, lst[j], i + 1, j + 1, runs)
-        return ref_match(pat, lst, binding, i + 1, j + 1, runs) if lst[j] == binding else None
+    if p in VARS:
+        if p not in binding:
+            return ref_match(pat, lst, dict(binding, **{p: lst[j]}), i + 1, j + 1, runs)
+        return ref_match(pat, lst, binding, i + 1, j + 1, runs) if lst[j] == binding[p] else None
     return ref_match(pat, lst, binding, i + 1, j + 1, runs) if lst[j] == p else None
 
 
@@ -40,10 +43,27 @@ def ref_output(pat, lst):
     for p in pat:
         if p == "...":
             out += runs[ri]; ri += 1
-        elif p == "x":
-            out.append("wrap(%s)" % b)
+        elif p in VARS:
+            out.append("wrap(%s)" % b[p])
         else:
             out.append(p.upper())
+    return out
+
+
+def deep_patterns(rng, n):
+    """longer patterns: 2-4 elisions, two metavariables that repeat, no two elisions adjacent"""
+    out, seen = [], set()
+    while len(out) < n:
+        k = rng.randint(5, 8)
+        pat = []
+        for _ in range(k):
+            c = rng.choice(["...", "...", "x", "x", "y", "a", "b"])
+            if c == "..." and pat and pat[-1] == "...":
+                c = rng.choice(["x", "y", "a"])
+            pat.append(c)
+        if pat.count("...") < 2 or (pat.count("x") < 2 and pat.count("y") < 2) or tuple(pat) in seen:
+            continue
+        seen.add(tuple(pat)); out.append(pat)
     return out
 
 
@@ -61,12 +81,12 @@ def lists(maxlen):
 
 def patch_args(pat, opener=("f(", "g("), closer=")"):
     """elisions on context lines, explicit elements as -/+ pairs"""
-    lines = ["@@", "var x expression", "@@", "-" + opener[0], "+" + opener[1]]
+    lines = ["@@", "var x, y expression", "@@", "-" + opener[0], "+" + opener[1]]
     for p in pat:
         if p == "...":
             lines.append("   ...,")
-        elif p == "x":
-            lines += ["-  x,", "+  wrap(x),"]
+        elif p in VARS:
+            lines += ["-  %s," % p, "+  wrap(%s)," % p]
         else:
             lines += ["-  %s," % p, "+  %s," % p.upper()]
     lines.append(" " + closer)
@@ -130,7 +150,7 @@ def main():
     ck.proof_obligations(ok, log, info, coq_ok, coq_log)
     thorough = ck.tier == "thorough"
     pats = list(patterns(4))
-    ls = list(lists(5 if thorough else 4))
+    ls = base_lists = list(lists(5 if thorough else 4))
     kinds = [("call-args", ("f(", "g("), ")"), ("complit", ("F{", "G{"), "}")]
     pairs, names, meta = [], [], []
     for kind, opener, closer in kinds:
@@ -138,6 +158,14 @@ def main():
         for pat in sel:
             pairs.append(("p.patch", patch_args(pat, opener, closer), "a.go", file_args(ls, opener[0], closer)))
             names.append("%s:%s" % (kind, " ".join(pat))); meta.append((kind, pat, opener, closer))
+    # longer patterns with several elisions and two repeating metavariables, against longer lists
+    deep = deep_patterns(ck.rng, 400 if thorough else 60)
+    import itertools as _it
+    deep_lists = [list(l) for n in range(0, 7) for l in _it.product(ELEMS, repeat=n)]
+    deep_lists = deep_lists if thorough else [l for k, l in enumerate(deep_lists) if len(l) <= 4 or k % 3 == 0]
+    for pat in deep:
+        pairs.append(("p.patch", patch_args(pat, ("f(", "g("), ")"), "a.go", file_args(deep_lists, "f(", ")")))
+        names.append("deep:%s" % " ".join(pat)); meta.append(("deep", pat, ("f(", "g("), ")"))
     # statement blocks: implicit elision at both ends; explicit elements only (a pattern must not start or end with "...")
     # (a single statement is an expression pattern: every instance is rewritten, not only the first)
     spats = [p for p in pats if len(p) >= 2 and p[0] != "..." and p[-1] != "..." and "x" not in p]
@@ -159,9 +187,10 @@ def main():
         ck.tally("kind", kind)
         # ---- direct oracle: reference decomposition from the property text, per (pattern, list) pair
         r = o["impl"]
-        if kind in ("call-args", "complit") and not o["skipped"]:
+        if kind in ("call-args", "complit", "deep") and not o["skipped"]:
             out = unb64(r["out"]) if r.get("out") else pair[3]
             got = parse_out_args(out)
+            ls = deep_lists if kind == "deep" else base_lists
             if len(got) != len(ls):
                 ck.mismatch("cannot attribute output statements to input lists for %s" % name,
                             {"patch": pair[1].decode(), "output": out.decode("utf-8", "replace")[:2000]}, "C04 sweep harness")
@@ -176,6 +205,7 @@ def main():
                                      % (" ".join(pat), " ".join(l), kind, want, g),
                                      {"patch": pair[1].decode(), "list": l, "expected": want, "got": g, "kind": kind})
         if kind == "stmts" and not o["skipped"]:
+            ls = base_lists
             out = (unb64(r["out"]) if r.get("out") else pair[3]).decode("utf-8", "replace")
             blocks = re.findall(r"func h\d+\(\) \{\n\tif ok \{\n((?:\t\t.*\n)*)\t\}\n\}", out)
             if len(blocks) == len(ls):
@@ -190,15 +220,16 @@ def main():
                                      {"patch": pair[1].decode(), "block": l, "expected": want, "got": got})
         enginecheck.report(ck, name, (pair[0], pair[1], pair[2], pair[3][:1500]), o, "any", None)
     ck.notes["pattern_list_pairs_judged_by_reference"] = npairs
-    ck.sample({"case": names[10], "patch": pairs[10][1].decode(), "lists": len(ls)})
+    ck.sample({"case": names[10], "patch": pairs[10][1].decode(), "lists": len(base_lists)})
     ck.sample({"case": names[-30], "patch": pairs[-30][1].decode()})
     ck.cov["rule"] = ("exhaustive small scope: all %d patterns over {a, b, x (expression metavariable), ...} of length <= 4, each against all "
                       "%d lists over {a, b, c} of length <= %d, as call arguments (full), composite-literal elements (%s) and statement "
                       "blocks with implicit elisions (%s); elisions on context lines, explicit elements as -/+ pairs that mark what matched; "
+                      "%d longer patterns (5-8 symbols, 2-4 elisions, metavariables x and y repeating) against %d lists of length <= 6; "
                       "for-header elision on for/range shapes; golden cases with elisions.  Every (pattern, list) pair is judged by a "
                       "reference matcher written from the property text (exists a decomposition; shortest run first; runs reproduced "
                       "complete, in order, unchanged) and every file by the extracted Coq engine model. non-trivial = patch loads"
-                      % (len(pats), len(ls), 5 if thorough else 4, "full" if thorough else "every 5th pattern", "full" if thorough else "every 2nd pattern"))
+                      % (len(pats), len(base_lists), 5 if thorough else 4, "full" if thorough else "every 5th pattern", "full" if thorough else "every 2nd pattern", len(deep), len(deep_lists)))
     ck.cov["exhaustive"] = True
     ck.cov["trusted_base"] = TRUSTED + ["the reference matcher ref_match/ref_output in checks/c04.py (35 lines)"]
     ck.assumptions = ["the token-level decision which '...' are elisions (pgo/augment) is an oracle of the engine model; exercised here through the parser"]
